@@ -21,6 +21,7 @@ import (
 	apiequality "k8s.io/apimachinery/pkg/api/equality"
 	metav1 "k8s.io/apimachinery/pkg/apis/meta/v1"
 	k8sruntime "k8s.io/apimachinery/pkg/runtime"
+	"k8s.io/apimachinery/pkg/types"
 	utilruntime "k8s.io/apimachinery/pkg/util/runtime"
 	"k8s.io/apimachinery/pkg/watch"
 	kubefake "k8s.io/client-go/kubernetes/fake"
@@ -424,12 +425,28 @@ func watchTypeChar(t watch.EventType) byte {
 	return '?'
 }
 
+// watchMeta: metadata as an API server hands it out (uid, resource version, creation time, managed fields, owner
+// references, finalizers; every third object is being deleted). The relayed object must carry all of it.
 func watchMeta(id int) metav1.ObjectMeta {
-	return metav1.ObjectMeta{
+	t := true
+	m := metav1.ObjectMeta{
 		Name: "s" + strconv.Itoa(id), Namespace: "ns", Generation: int64(id + 1),
-		Labels:      map[string]string{"app": "db", "n": strconv.Itoa(id)},
-		Annotations: map[string]string{helper.DeleteSlotsAnn: "[" + strconv.Itoa(id) + "]"},
+		UID: types.UID("uid-" + strconv.Itoa(id)), ResourceVersion: strconv.Itoa(1000 + id),
+		CreationTimestamp: metav1.NewTime(time.Date(2021, 2, 3, 4, 5, id%60, 0, time.UTC)),
+		Labels:            map[string]string{"app": "db", "n": strconv.Itoa(id)},
+		Annotations:       map[string]string{helper.DeleteSlotsAnn: "[" + strconv.Itoa(id) + "]"},
+		OwnerReferences:   []metav1.OwnerReference{{APIVersion: "pingcap.com/v1alpha1", Kind: "TidbCluster", Name: "tc", UID: "uid-tc", Controller: &t}},
+		Finalizers:        []string{"example.com/hold"},
+		ManagedFields: []metav1.ManagedFieldsEntry{{Manager: "kubectl", Operation: metav1.ManagedFieldsOperationApply, APIVersion: "apps/v1",
+			Time: &metav1.Time{Time: time.Date(2021, 2, 3, 4, 5, 6, 0, time.UTC)}, FieldsType: "FieldsV1",
+			FieldsV1: &metav1.FieldsV1{Raw: []byte(`{"f:spec":{"f:replicas":{}}}`)}}},
 	}
+	if id%3 == 2 {
+		d := metav1.NewTime(time.Date(2022, 1, 1, 0, 0, 0, 0, time.UTC))
+		g := int64(30)
+		m.DeletionTimestamp, m.DeletionGracePeriodSeconds = &d, &g
+	}
+	return m
 }
 
 func watchTemplate(id int) corev1.PodTemplateSpec {
